@@ -1103,6 +1103,19 @@ func (b *txBuffer) flush(ser old_faithful_grpc.OldFaithful_StreamTransactionsSer
 	}
 	klog.V(2).Infof("Flushing buffer with %d slots containing %d total transactions", len(b.items), totalTxs)
 
+	// NOTE: endSlot comes from the client. Nothing is buffered beyond the highest slot in items, so do not
+	// walk the rest of the range slot by slot (a huge end slot kept this loop spinning, without ever
+	// looking at the context, for as long as it takes to count up to it; forever for MaxUint64).
+	lastBufferedSlot := b.currentSlot
+	for slot := range b.items {
+		if slot > lastBufferedSlot {
+			lastBufferedSlot = slot
+		}
+	}
+	if b.endSlot > lastBufferedSlot {
+		b.endSlot = lastBufferedSlot
+	}
+
 	for b.currentSlot <= b.endSlot {
 		// Send all transactions for this slot in index order
 		if txMap, exists := b.items[b.currentSlot]; exists {
@@ -1138,6 +1151,9 @@ func (b *txBuffer) flush(ser old_faithful_grpc.OldFaithful_StreamTransactionsSer
 		// Clean up processed slot
 		delete(b.items, b.currentSlot)
 		b.currentSlot++
+		if b.currentSlot == 0 {
+			break // the range ended at the last possible slot: do not wrap around
+		}
 	}
 	return nil
 }
